@@ -280,6 +280,11 @@ def run(rep: Report, tier: str) -> None:
     from sa.checks.c19 import period_limits as _pl_g
     from sa.checks.c21 import spelling_grid as _sg_g
     _sg_g(rep, "R05.10", {k.lower(): v for k, v in _sqlx_g.load_macros(P).items()}, _pl_g(P))
+    # ---- R05.11: an operand without datapoints is still an operand (shared with C19) ----
+    rep.rule("R05.11", "register_dataframes creates the table of every dataset of the script on every path of its loop (only `name not in input_datasets` skips): union / intersect / "
+                       "setdiff / symdiff over an operand given as an empty DataFrame work on an empty table")
+    from sa.checks.c19 import every_dataframe_becomes_a_table as _edt
+    _edt(P, rep, "R05.11")
     rep.assumptions = ["operator arity as written in Vtl.g4", "UNION ALL matches columns by position (SQL)"]
 
 
